@@ -83,7 +83,13 @@ def merge(states):
         for k in out.vars:
             if k not in s.vars:
                 continue
-            n.vars[k] = ite_val(out.guard, out.vars[k], s.vars[k])
+            a = out.vars[k]; b = s.vars[k]
+            if (isinstance(a, tuple) or isinstance(b, tuple)) and a is not b:
+                continue            # pointer variable not yet assigned on one side: unusable after the merge
+            try:
+                n.vars[k] = ite_val(out.guard, a, b)
+            except Unsupported:
+                continue
         for k in out.mem:
             a = out.mem[k]; b = s.mem.get(k)
             if b is None:
@@ -974,8 +980,10 @@ class VCGen:
                 cn = m[1]; name = self.callee_name(cn)
                 if name in ('fprintf', 'printf', '__builtin_isnan', 'fabs', 'sqrt', 'exp', 'log', 'pow', 'fmin', 'fmax', 'abs', 'floor', 'ceil'):
                     continue
-                if name in ('malloc', 'free'):
-                    raise Unsupported('malloc/free inside a cut loop')
+                if name == 'malloc':
+                    raise Unsupported('malloc inside a cut loop')
+                if name == 'free':
+                    continue        # allowed on paths that leave the loop: checked by the `free-in-loop` obligation below
                 if name == 'qsort':
                     b = cn['inner'][1]
                     while b['kind'] != 'DeclRefExpr':
@@ -1045,6 +1053,9 @@ class VCGen:
         r = self.ex(b, body)
         nxt = merge([r.get('normal'), r.get('continue')])
         if nxt is not None:
+            for rn, al in h.alive.items():
+                if nxt.alive.get(rn) is not al:
+                    self.oblige(nxt, 'free', nxt.alive[rn] == al, line, note='loop %d: memory freed in the body only on paths that leave the loop (%s)' % (ordinal, rn))
             if spec.hints:
                 envb = SymEnv(self, nxt, {}, old=self.entry, goal=True); envb.labels = {'loop': st, 'iter': h}
                 envb2 = SymEnv(self, nxt, {}, old=self.entry); envb2.labels = {'loop': st, 'iter': h}
